@@ -800,4 +800,124 @@ theorem cleanCheck_sound (cfg : Cfg) (fs : FS) (root : APath) (nodes : List (APa
     rw [heq] at this
     exact Nat.lt_irrefl _ this
 
+instance (cfg : Cfg) (f : ProgFile) : Decidable (RefPositionsDistinct cfg f) := by
+  unfold RefPositionsDistinct; infer_instance
+
+/-- all hypotheses of `front_eq_violationsOrdered`, as one computable check (`nodes`: a candidate list of the
+    reachable (file, spelling) nodes of the import graph) -/
+def progChecks (cfg : Cfg) (fs : FS) (builtins : Registry) (root : APath) (nodes : List (APath × APath)) : Bool :=
+  match programInOrder cfg fs.files root with
+  | none => false
+  | some prog =>
+    cleanCheck cfg fs root nodes (rootOrder cfg fs root)
+      && decide (((progRegistry builtins prog).map (·.key)).Nodup)
+      && decide ((prog.map (·.file)).Nodup)
+      && prog.all (fun f => decide (RefPositionsDistinct cfg f))
+
+/-- `front_eq_violationsOrdered` with its hypotheses discharged by evaluation -/
+theorem front_of_progChecks (cfg : Cfg) (fs : FS) (builtins : Registry) (root : APath) (nodes : List (APath × APath))
+    (h : progChecks cfg fs builtins root nodes = true) :
+    ∃ prog ds, programInOrder cfg fs.files root = some prog
+      ∧ front cfg fs builtins root = (if ds = [] then Outcome.ok else Outcome.diags ds)
+      ∧ ds.Perm (violationsOrdered cfg.keys cfg.defaultDeriving builtins prog) := by
+  unfold progChecks at h
+  cases hp : programInOrder cfg fs.files root with
+  | none => rw [hp] at h; cases h
+  | some prog =>
+    rw [hp] at h
+    simp only [Bool.and_eq_true, decide_eq_true_eq, List.all_eq_true] at h
+    obtain ⟨⟨⟨h1, h2⟩, h3⟩, h4⟩ := h
+    obtain ⟨ds, hfront, hperm⟩ := front_eq_violationsOrdered cfg fs builtins root prog hp
+      (cleanCheck_sound cfg fs root nodes _ h1) h2 h3 h4
+    exact ⟨prog, ds, rfl, hfront, hperm⟩
+
+/-! ### non-vacuity
+
+Compiled evaluation with `#guard` — tests, not proofs (kernel reduction of the path-splitting functions and of the
+lexer is too slow for `decide`, as in `Props/C16.lean`). For each program: the hypotheses of the theorem hold
+(`progChecks`, sound by `front_of_progChecks`), the diagnostics of `front` are a permutation of `violationsOrdered`,
+and there are violations in the imported files as well as in the importing file. -/
+
+namespace C05ProgramExamples
+
+def bi : Registry := [⟨"i32", .primitive, 0⟩, ⟨"list", .collection, 1⟩]
+
+def diagsOf (o : Outcome) : Option (List Diag) := match o with | .ok => some [] | .diags ds => some ds | .abort _ => none
+
+def specOf (cfg : Cfg) (fs : FS) (builtins : Registry) (root : APath) : Option (List Diag) :=
+  (programInOrder cfg fs.files root).map (violationsOrdered cfg.keys cfg.defaultDeriving builtins)
+
+def agree (cfg : Cfg) (fs : FS) (builtins : Registry) (root : APath) : Bool :=
+  match diagsOf (front cfg fs builtins root), specOf cfg fs builtins root with
+  | some ds, some vs => ds.isPerm vs
+  | _, _ => false
+
+def node (n : String) : APath × APath := (["w", n], ["w", n])
+
+-- three files: `a` imports `b` and `c`, `b` imports `c`; a violation in each file. `b` refers to `ta`, which only the
+-- importing file declares afterwards: unknown in `b` (the file-by-file reading). `static const` in `b` is reported at
+-- visit time by the model, i.e. before `b`'s unknown type: the two lists agree up to order only.
+def ex3 : FS := fsOf [
+  ("a", "@import \"b\"\n@import \"c\"\nta = record { x: tb; y: nope; z: list<tc>; }"),
+  ("b", "@import \"c\"\ntb = record { u: tc; v: ta; }\nib = interface { static const m(); }"),
+  ("c", "tc = record { w: missing; }\nnamespace n { tc2 = enum { k; } }")]
+#guard rootOrder cfg0 ex3 ["w", "a"] == [["w", "c"], ["w", "b"], ["w", "a"]]
+#guard progChecks cfg0 ex3 bi ["w", "a"] [node "a", node "b", node "c"]
+#guard agree cfg0 ex3 bi ["w", "a"]
+#guard (diagsOf (front cfg0 ex3 bi ["w", "a"])).map (·.map (fun d => (d.rule, d.file)))
+  == some [("unknown-type", "/w/c"), ("static-const", "/w/b"), ("unknown-type", "/w/b"), ("unknown-type", "/w/a")]
+#guard (specOf cfg0 ex3 bi ["w", "a"]).map (·.map (fun d => (d.rule, d.file)))
+  == some [("unknown-type", "/w/c"), ("unknown-type", "/w/b"), ("static-const", "/w/b"), ("unknown-type", "/w/a")]
+
+-- a diamond without violations: accepted, and the specification finds nothing
+def exDiamondOk : FS := fsOf [("a", "@import \"b\"\n@import \"c\"\nta = record { x: tb; y: tc; z: td; }"),
+  ("b", "@import \"d\"\ntb = record { x: td; }"), ("c", "@import \"d\"\ntc = record { x: list<td>; }"), ("d", "td = enum { k; }")]
+#guard progChecks cfg0 exDiamondOk bi ["w", "a"] [node "a", node "b", node "c", node "d"]
+#guard diagsOf (front cfg0 exDiamondOk bi ["w", "a"]) == some []
+#guard specOf cfg0 exDiamondOk bi ["w", "a"] == some []
+
+-- the root spelled with `..`: the node of the root is (normalised path, spelling)
+#guard progChecks cfg0 ex3 bi ["w", "x", "..", "a"] [(["w", "a"], ["w", "x", "..", "a"]), node "b", node "c"]
+#guard agree cfg0 ex3 bi ["w", "x", "..", "a"]
+
+-- the hypotheses are needed: with a circular import, a missing file or a duplicate name the check fails, and the
+-- model reports more than the rule violations (or aborts)
+def exCyc : FS := fsOf [("a", "@import \"b\"\nta = enum { k; }"), ("b", "@import \"a\"\ntb = enum { k; }")]
+#guard !progChecks cfg0 exCyc bi ["w", "a"] [node "a", node "b"]
+#guard !agree cfg0 exCyc bi ["w", "a"]
+def exMissing : FS := fsOf [("a", "@import \"nope\"\nta = enum { k; }")]
+#guard !progChecks cfg0 exMissing bi ["w", "a"] [node "a"]
+#guard !agree cfg0 exMissing bi ["w", "a"]
+def exDup : FS := fsOf [("a", "@import \"b\"\nt = enum { k; }"), ("b", "t = enum { k; }")]
+#guard !progChecks cfg0 exDup bi ["w", "a"] [node "a", node "b"]
+#guard !agree cfg0 exDup bi ["w", "a"]
+
+-- `front_split_invariance`: the same three files with the two `@import` lines of the root exchanged — a different
+-- finish order; both programs are dependency-closed, have the same declarations, satisfy the hypotheses, and the model
+-- reports the same diagnostics up to order (violations in the imported file `b` and in the root)
+def exSwap1 : FS := fsOf [("a", "@import \"b\"\n@import \"c\"\nta = record { x: tb; y: tc; z: nope; }"),
+  ("b", "tb = record { q: missing; }"), ("c", "tc = enum { k; }")]
+def exSwap2 : FS := fsOf [("a", "@import \"c\"\n@import \"b\"\nta = record { x: tb; y: tc; z: nope; }"),
+  ("b", "tb = record { q: missing; }"), ("c", "tc = enum { k; }")]
+def closedB (fs : FS) : Bool :=
+  match programInOrder cfg0 fs.files ["w", "a"] with | some p => decide (Closed bi p) | none => false
+/-- the declarations of a program by file, qualified name and position (`Decl` has no `BEq`) -/
+def declsRepr (fs : FS) : List (String × String × Pos) :=
+  match programInOrder cfg0 fs.files ["w", "a"] with
+  | some p => (progDecls p).map (fun x => (x.1, declKey x.2.1 x.2.2, declPos x.2.2))
+  | none => []
+#guard rootOrder cfg0 exSwap1 ["w", "a"] == [["w", "b"], ["w", "c"], ["w", "a"]]
+#guard rootOrder cfg0 exSwap2 ["w", "a"] == [["w", "c"], ["w", "b"], ["w", "a"]]
+#guard progChecks cfg0 exSwap1 bi ["w", "a"] [node "a", node "b", node "c"]
+#guard progChecks cfg0 exSwap2 bi ["w", "a"] [node "a", node "b", node "c"]
+#guard closedB exSwap1 && closedB exSwap2
+#guard (declsRepr exSwap1).isPerm (declsRepr exSwap2) && declsRepr exSwap1 != declsRepr exSwap2
+#guard match diagsOf (front cfg0 exSwap1 bi ["w", "a"]), diagsOf (front cfg0 exSwap2 bi ["w", "a"]) with
+  | some d1, some d2 => d1.isPerm d2 && d1.map (·.file) == ["/w/b", "/w/a"]
+  | _, _ => false
+-- `ex3` is not closed (`b` refers to a name of the importing file)
+#guard !closedB ex3
+
+end C05ProgramExamples
+
 end Pydjinni.Front
